@@ -16,6 +16,7 @@ import (
 	"strconv"
 	"strings"
 	"sync"
+	"sync/atomic"
 	"time"
 
 	"verif/harness/core"
@@ -191,6 +192,28 @@ func buildShared(name string, r *rand.Rand, nv, nr int) *shared {
 		}
 		if rg, err, pn := e.SafeNewRange(x); accepted(isNilRng(rg), err, pn) {
 			s.rstr = append(s.rstr, x)
+		}
+	}
+	// shorthand / interval ranges anchored on the shared versions (so probes fall inside, outside and on the bounds), and
+	// for maven multi-set ranges whose sets are shared versions (each probe sits in another alternative)
+	if len(s.vstr) > 6 {
+		ap := &Pool{Eco: e, Strs: s.vstr}
+		for k := 0; k < 24 && len(s.rstr) < nr+10; k++ {
+			x := anchoredRange(name, ap, r)
+			if name == "maven" && k%3 == 0 {
+				var sets []string
+				for n := 3 + r.IntN(3); n > 0; n-- {
+					if v := s.vstr[r.IntN(len(s.vstr))]; !strings.ContainsAny(v, ",[]() ") {
+						sets = append(sets, "["+v+"]")
+					}
+				}
+				if len(sets) >= 3 {
+					x = strings.Join(sets, ",")
+				}
+			}
+			if rg, err, pn := e.SafeNewRange(x); accepted(isNilRng(rg), err, pn) {
+				s.rstr = append(s.rstr, x)
+			}
 		}
 	}
 	for sc, en := range SchemeEco {
@@ -867,14 +890,68 @@ func hotStorm(c *core.Ctx, w *core.W, only string, sink func(core.Violation)) {
 				return itoa(sh.vers[h].Compare(sh.vers[i])) + "/" + itoa(sh.vers[i].Compare(sh.vers[h]))
 			},
 				func(i int) []string { return []string{spec.vstr[h], spec.vstr[i]} })
-			if len(sh.rngs) > 0 {
-				k := r.IntN(len(sh.rngs))
-				for i := range want {
-					want[i] = strconv.FormatBool(seq.rngs[k].Contains(seq.vers[i]))
-				}
-				storm(name, "Contains", nv, want, func(i int) string { return strconv.FormatBool(sh.rngs[k].Contains(sh.vers[i])) },
-					func(i int) []string { return []string{spec.rstr[k], spec.vstr[i]} })
+		}
+		// every shared range in turn (multi-set, OR and shorthand ranges keep per-object hints and caches)
+		for k := range sh.rngs {
+			want := make([]string, nv)
+			for i := range want {
+				want[i] = strconv.FormatBool(seq.rngs[k].Contains(seq.vers[i]))
 			}
+			saveIters := iters
+			iters = max(iters/4, 500)
+			storm(name, "Contains", nv, want, func(i int) string { return strconv.FormatBool(sh.rngs[k].Contains(sh.vers[i])) },
+				func(i int) []string { return []string{spec.rstr[k], spec.vstr[i]} })
+			iters = saveIters
+		}
+		// fresh-object storm: a range (and a version) parsed a moment ago whose FIRST uses come from 8 goroutines at
+		// once, thousands of times - lazily resolved fields published as two separate stores are wrong only in the few
+		// nanoseconds between them, once per object
+		if len(spec.rstr) > 0 {
+			rounds := c.Scale(12000, 100000)
+			var bad atomic.Int32
+			for rd := 0; rd < rounds && bad.Load() == 0; rd++ {
+				k := rd % len(spec.rstr)
+				if rd%5 < 3 && len(spec.rstr) > 10 { // mostly the anchored shorthand / interval ranges at the end of the list
+					k = len(spec.rstr) - 1 - (rd/5)%10
+				}
+				rg, err, pn := sh.e.SafeNewRange(spec.rstr[k])
+				if pn != nil || err != nil || rg == nil {
+					continue
+				}
+				fv, _, _ := sh.e.SafeNewVersion(spec.vstr[rd%nv])
+				start := make(chan struct{})
+				var wg sync.WaitGroup
+				for g := 0; g < 8; g++ {
+					wg.Add(1)
+					go func(g int) {
+						defer wg.Done()
+						defer func() {
+							if p := recover(); p != nil && bad.Add(1) == 1 {
+								report(core.Violation{Eco: name, Op: "hot-object", Args: []string{"first-use", spec.rstr[k], spec.vstr[(rd+g)%nv]}, Rule: "result-differs-under-concurrency-on-one-object", Got: fmt.Sprint("panic: ", p)})
+							}
+						}()
+						<-start
+						i := (rd + g) % nv
+						got := rg.Contains(sh.vers[i])
+						if want := seq.rngs[k].Contains(seq.vers[i]); got != want && bad.Add(1) == 1 {
+							report(core.Violation{Eco: name, Op: "hot-object", Args: []string{"first-use", spec.rstr[k], spec.vstr[i]}, Rule: "result-differs-under-concurrency-on-one-object", Got: strconv.FormatBool(got), Want: strconv.FormatBool(want),
+								Detail: "the range object was parsed a moment before; its first Contains calls came from 8 goroutines at once"})
+						}
+						if fv != nil && g%2 == 1 {
+							if a, b := fv.Compare(sh.vers[i]), seq.vers[rd%nv].Compare(seq.vers[i]); a != b && bad.Add(1) == 1 {
+								report(core.Violation{Eco: name, Op: "hot-object", Args: []string{"first-use", spec.vstr[rd%nv], spec.vstr[i]}, Rule: "result-differs-under-concurrency-on-one-object", Got: itoa(a), Want: itoa(b),
+									Detail: "the version object was parsed a moment before; its first Compare calls came from several goroutines at once"})
+							}
+						}
+					}(g)
+				}
+				close(start)
+				wg.Wait()
+			}
+			mu.Lock()
+			w.Count("evaluations", int64(rounds*8))
+			w.Count("fresh_object_first_use_rounds", int64(rounds))
+			mu.Unlock()
 		}
 		// wide storm: 512 (thorough 2048) goroutines in flight at once, each comparing its own pair of LONG siblings (a
 		// common stem of ~30 identifiers, so a comparison stays in flight for a while) - fixed-size scratch rings, per-P
